@@ -100,7 +100,10 @@ def impl_tree(font, gname, reader=None, doc_cache=None):
             d = SVGDoc(text)
             if doc_cache is not None:
                 doc_cache[text] = d
-        return map_tree(d.glyph_tree(gid), Y_FLIP), "otsvg"
+        t = map_tree(d.glyph_tree(gid), Y_FLIP)
+        for lf in leaves(t):
+            lf.tag = "doc%d:%s" % (hit[1], lf.tag)  # ids / element paths are only unique within one document
+        return t, "otsvg"
     return None, None
 
 
